@@ -51,6 +51,6 @@ def run(ctx):
     # the compact reader's field-id context / bool-in-header state is kept the same way by the in-memory and the async reader
     tp.compact_typestate(rep, 'R12.t', prog, cg)
     rep.floor('R12.a', 66)
-    rep.floor('R12.c', 30)
+    rep.floor('R12.c', 20)
     rep.floor('R12.b', 28)
     return rep
